@@ -60,6 +60,7 @@ type offer struct {
 
 func runSend(c SendCase) *evid.Failure {
 	env := rawpeer.NewEnv(c.Env)
+	defer env.Close()
 	var s *netsim.Sock
 	var p *rawpeer.Peer
 	o := rawpeer.SynOpts{MSS: c.MSS, WS: c.WS, TS: c.TS, SACKPerm: c.Env.SACK}
